@@ -720,8 +720,8 @@ func ruleX5(p *Program, r *Reporter) {
 			}
 		}
 	}
-	if n < 6 {
-		r.Anchor(id, fmt.Sprintf("package cache: %d calls of set-modifying helpers, expected >= 6", n))
+	if n < 4 {
+		r.Anchor(id, fmt.Sprintf("package cache: %d calls of set-modifying helpers, expected >= 4", n))
 	}
 }
 
@@ -803,7 +803,7 @@ func ruleRREPORT(p *Program, r *Reporter) {
 					"an outcome assigned to the operation result here (e.g. a failure detected while merging/applying the update) is never copied into results[i] ("+how+"): the operation is reported as successful and the transaction is committed"))
 		}
 	}
-	if n < 10 {
-		r.Anchor(id, fmt.Sprintf("operation loop: %d assignments of the operation result, expected >= 10", n))
+	if n < 4 {
+		r.Anchor(id, fmt.Sprintf("operation loop: %d assignments of the operation result, expected >= 4", n))
 	}
 }
